@@ -534,12 +534,11 @@ impl<'a> FmtVisitor<'a> {
     ) {
         let enum_header =
             format_header(&self.get_context(), "enum ", ident, vis, self.block_indent);
-        self.push_str(&enum_header);
 
         let enum_snippet = self.snippet(span);
         let brace_pos = enum_snippet.find_uncommented("{").unwrap();
         let body_start = span.lo() + BytePos(brace_pos as u32 + 1);
-        let generics_str = format_generics(
+        let Some(generics_str) = format_generics(
             &self.get_context(),
             generics,
             self.config.brace_style(),
@@ -552,8 +551,12 @@ impl<'a> FmtVisitor<'a> {
             // make a span that starts right after `enum Foo`
             mk_sp(ident.span.hi(), body_start),
             last_line_width(&enum_header),
-        )
-        .unwrap();
+        ) else {
+            // The generics do not fit: leave the enum as it is written.
+            self.push_rewrite(span, None);
+            return;
+        };
+        self.push_str(&enum_header);
         self.push_str(&generics_str);
 
         self.last_pos = body_start;
